@@ -285,6 +285,20 @@ fn main() {
                 rep.check(i, &format!("{name}:as_ref"), ar == st && ab == s && bo == st, json!(st), json!(ar));
                 let disp = format!("{}", bs);
                 rep.check(i, &format!("{name}:display"), disp == st, json!(st), json!(disp));
+                // Display honours the formatter's width / fill / alignment / precision exactly as str does
+                let fmts: [(&str, String, String); 8] = [
+                    ("{:>6}", format!("{:>6}", bs), format!("{:>6}", st)),
+                    ("{:<5}|", format!("{:<5}|", bs), format!("{:<5}|", st)),
+                    ("{:*^7}", format!("{:*^7}", bs), format!("{:*^7}", st)),
+                    ("{:.1}", format!("{:.1}", bs), format!("{:.1}", st)),
+                    ("{:.0}", format!("{:.0}", bs), format!("{:.0}", st)),
+                    ("{:8.2}", format!("{:8.2}", bs), format!("{:8.2}", st)),
+                    ("{:#?}", format!("{:#?}", bs), format!("{:#?}", st)),
+                    ("{:>10?}", format!("{:>10?}", bs), format!("{:>10?}", st)),
+                ];
+                for (spec, got, want) in fmts.iter() {
+                    rep.check(i, &format!("{name}:fmt:{spec}"), got == want, json!(want), json!(got));
+                }
                 let dbg = format!("{:?}", bs);
                 rep.check(i, &format!("{name}:debug"), dbg == format!("{:?}", st), json!(format!("{:?}", st)), json!(dbg));
                 let to_s: String = String::from(bs.clone());
